@@ -20,10 +20,13 @@
                               the same stated on rows: two streams equal except after the first cell of one rejected
                               block (same number of rows, still plain continuation rows) read identically.
     * `gridName_is_table_name`  if a raw grid parses, the name it spells is the parsed table's name.
+    * `rejected_resize`       a rejected block replaced by one with more (or fewer) rows: the read is unchanged up to
+                              the origin / issue / error rows after the block, which move by the difference.
 -/
 import PdtModel.Model.Blocks
 import PdtModel.Props.C02
 import PdtModel.Props.C03
+import PdtModel.Props.C12
 set_option linter.unusedSimpArgs false
 set_option linter.unusedVariables false
 namespace Pdt.C11
@@ -825,6 +828,66 @@ theorem rowwise_edit_any_length (pre post : List Row) (c : Cell) (r : Row) (body
         tailBlocks rowKind ty (pre.length + 1 + body.length) post :=
   block_split rowKind pre (c :: r) body post ty hh hb hpost
 
+/-! ### a rejected block replaced by one with another number of rows: equal up to the origin rows after it -/
+
+theorem tailBlocks_shift (ty : BT) (k : Kind) (hty : starter k = some ty) (i d : Nat) (post : List Row)
+    (hpost : post = [] ∨ ∃ x rest, post = x :: rest ∧ rowKind x ≠ .plain) :
+    tailBlocks rowKind ty (i + d) post = (tailBlocks rowKind ty i post).map (C12.shiftB d) := by
+  rcases hpost with rfl | ⟨x, rest, rfl, hx⟩
+  · rfl
+  · simp only [tailBlocks]
+    have h1 := (C12.step_shift rowKind d i ⟨[], ty, 0⟩ x).1
+    have h2 := congrArg Prod.fst (step_end rowKind [] (0 + d) (i + d) x k ty hty hx)
+    simp only [C12.shiftS] at h1
+    rw [h2] at h1
+    rw [h1]
+    have := C12.go_shift rowKind d (i + 1) (step rowKind ⟨[], ty, 0⟩ i x).1 rest
+    rw [show i + d + 1 = i + 1 + d by omega]
+    simpa [C12.shiftS] using this
+
+/-- what a read delivers, reports and how it ends, with every origin row moved down by `n` -/
+def shiftView (n : Nat) (v : List Delivered × List Nat × Ending) : List Delivered × List Nat × Ending :=
+  (v.1.map (C12.shiftD n), v.2.1.map (· + n),
+   match v.2.2 with
+   | .exhausted => .exhausted
+   | .inputError r => .inputError (r + n)
+   | .escaped e => .escaped e)
+
+/-- **a rejected block may grow**: if the rows after the first cell of a rejected block are replaced by `d` more
+    (plain continuation) rows, the read is the read of `pre` followed by the read of what comes after the block with
+    every origin row, issue row and error row moved down by `d` — and for `d = 0` that is the original read.  Nothing
+    else changes, nothing inside the block is interpreted.  (Read right to left it covers a block that shrinks.) -/
+theorem rejected_resize (cfg : Config) (pre post : List Row) (c : Cell) (r r' : Row) (body body' : List Row)
+    (ty : BT) (hh : starter (rowKind (c :: r)) = some ty) (hh' : rowKind (c :: r') = rowKind (c :: r))
+    (hb : ∀ x ∈ body, rowKind x = .plain) (hb' : ∀ x ∈ body', rowKind x = .plain) (d : Nat)
+    (hlen : body'.length = body.length + d)
+    (hpost : post = [] ∨ ∃ x rest, post = x :: rest ∧ rowKind x ≠ .plain)
+    (hrej : accepts cfg ty ((c :: r) :: body) = false) (f : Fixer) :
+    ∃ T : List (Block Row),
+      C13.view (parseBlocks cfg (pre ++ ((c :: r) :: body) ++ post) f) =
+        C13.runV cfg f.cfg (segment pre ++ T) ∧
+      C13.view (parseBlocks cfg (pre ++ ((c :: r') :: body') ++ post) f) =
+        C13.runV cfg f.cfg (segment pre ++ T.map (C12.shiftB d)) ∧
+      C13.runV cfg f.cfg (T.map (C12.shiftB d)) = shiftView d (C13.runV cfg f.cfg T) := by
+  refine ⟨tailBlocks rowKind ty (pre.length + 1 + body.length) post, ?_, ?_, C12.runV_shift cfg f.cfg d _⟩
+  · unfold parseBlocks segment
+    rw [(C13.runBlocks_eq_runV cfg _ f).1, block_split rowKind pre (c :: r) body post ty hh hb hpost,
+      C12.runV_append, C12.runV_append, C12.runV_cons]
+    have hv : C13.verdict cfg f.cfg ⟨ty, (c :: r) :: body, pre.length⟩ = none := by
+      simp [C13.verdict, hrej]
+    rw [hv]
+  · unfold parseBlocks segment
+    rw [(C13.runBlocks_eq_runV cfg _ f).1,
+      block_split rowKind pre (c :: r') body' post ty (by rw [hh']; exact hh) hb' hpost,
+      C12.runV_append, C12.runV_append, C12.runV_cons]
+    have hacc : accepts cfg ty ((c :: r') :: body') = false := by
+      have := accepts_first_cell cfg ⟨ty, (c :: r') :: body', 0⟩ ⟨ty, (c :: r) :: body, 0⟩ rfl rfl
+      simpa [hrej] using this
+    have hv : C13.verdict cfg f.cfg ⟨ty, (c :: r') :: body', pre.length⟩ = none := by
+      simp [C13.verdict, hacc]
+    rw [hv, hlen, show pre.length + 1 + (body.length + d) = pre.length + 1 + body.length + d by omega,
+      tailBlocks_shift ty (rowKind (c :: r)) hh _ d post hpost]
+
 /-- **the reported name of a raw grid**: if the grid parses as a table, the name its first cell spells
     (`Spec.gridName`, what a `to="cellgrid"` block reports) is the parsed table's name -/
 theorem gridName_is_table_name (ext : Ext) (rows : List Row) (f : Fixer) (p : Precursor) (f' : Fixer)
@@ -951,5 +1014,10 @@ example : (makeTable C02.exampleExt [[.str "**c*".toList], [.str "all".toList],
       [.str "x".toList, .str "m".toList, .str "1.5".toList]] exFixer).toOption.map (·.1.name) = some "c".toList ∧
     Spec.gridName [[.str "**c*".toList], [.str "all".toList],
       [.str "x".toList, .str "m".toList, .str "1.5".toList]] = "c".toList := by decide
+
+/-- the hypotheses of `rejected_resize` are satisfiable: the rejected table `**bad` grows by one row -/
+example := rejected_resize (exCfg .pdtable (some exFilter) .collecting) exPre exPost (.str "**bad".toList) [] []
+  badA (badA ++ [[.str "more".toList, .none]]) .table (by decide) (by decide) (by decide) (by decide) 1 (by decide)
+  (Or.inr ⟨[], _, rfl, by decide⟩) (by decide) exFixer
 
 end Pdt.C11
